@@ -370,7 +370,7 @@ def run(ctx):
                     n_push += 1
                     ctx.require(pushes == [["filters", "(ToOwned::to_owned(line), Some{0: ToOwned::to_owned(path)})"]] and out in ("val", "cont"), "R12.7", "line-becomes-filter",
                                 "a pattern line is pushed once as (line, Some(the filter file))", rf.loc(lp.get("l", rf.line)), detail=str(pushes)[:200])
-                elif out == "cont":
+                elif out in ("cont", "val"):      # the iteration ends without a push: by `continue` or by falling off the end of the body
                     n_skip += 1
                     ctx.require(blank, "R12.7", "skip-only-blank-or-comment", "a line is skipped only when it is blank or a comment", rf.loc(lp.get("l", rf.line)),
                                 detail=pathx.show_events(evs)[:200])
